@@ -523,7 +523,8 @@ C11_SERVER_PART = server_part(
               "non-trivial = the real channel went from tracked requests back to 0 tracked, 0 timers, or ran a long "
               "script",
     known_sigs={"LimiterBlockedOnSink": srv_known_bit("C11", lambda: C11_SERVER_PART)},
-    known_witness={"LimiterBlockedOnSink": SRV_K2_WITNESS})
+    known_witness={"LimiterBlockedOnSink": SRV_K2_WITNESS},
+    max_shrinks=2, shrink_budget=12)
 C10_SERVER_PART = server_part(
     "C10", "C10server", "c10",
     nontrivial=_tags("stream-end"),
@@ -566,19 +567,19 @@ def _server_spec(pid, parts, level_text, level_note, assumptions):
 
 SPECS["C08"] = _server_spec(
     "C08", [C08_PART], level_text="State-form theorems, for EVERY transport and every state (Properties/C08.v): a request whose id is tracked is refused by start_request (C08_duplicate_ignored); a response is handed to the transport only while its id is tracked and that untracks it, so at most one response per tracked incarnation leaves the channel (C08_response_tracked_written_once); a response for an untracked id (cancelled, expired, already answered) is dropped without any transport call (C08_response_untracked_dropped); the hypothesis reuse_only_after_completion is necessary (C08_reuse_after_cancel_refuted, B1: the second request is answered with the first handler's value). The full trace-level property (every request read is yielded exactly once or ignored as a duplicate; every response written answers the latest open incarnation of its id with exactly the value its handler completed with; nothing after the channel is dropped) is the executable monitor c08_ok (coq/ServerMon.v), evaluated inside Coq on the observations of the REAL BaseChannel -> [MaxRequests] -> Requests -> InFlightRequest::execute for hundreds (thorough: 16 000 + a 33 614-script exhaustive sweep) of generated scripts, each also replayed on the model coq/Server.v and compared observation by observation.",
-    level_note="Trusted: Coq kernel, vm_compute, the Rust harness (scripted transport, virtual clock by clock_gettime interposition, hand polling) and the Python driver. Modelled, not verified: tokio bounded/unbounded mpsc, futures Abortable, Fuse, tokio-util DelayQueue (ms granularity; the order among several due timers is replayed by an executable copy of the timer wheel that no theorem depends on). Correspondence between coq/Server.v and the real BaseChannel/Requests/MaxRequests/execute is sampled (every transport call, yield, handler event and both gauges compared inside Coq), not proved. The observer/model simulation needed for the monitor theorem (coq/ServerSim*.v, ~2500 lines) is proved for the unconditional part of the invariant through every polling loop and the result of a poll (ServerSim6.top_poll); the remaining ops and the verdict flags are not threaded through it yet, so the monitor theorem itself is NOT claimed: the monitor is evaluated on the real code's traces on every run. Hypotheses: reuse_only_after_completion (B1), stops_after_error, one op is atomic.",
+    level_note="Trusted: Coq kernel, vm_compute, the Rust harness (scripted transport, virtual clock by clock_gettime interposition, hand polling) and the Python driver. Modelled, not verified: tokio bounded/unbounded mpsc, futures Abortable, Fuse, tokio-util DelayQueue (ms granularity; the order among several due timers is replayed by an executable copy of the timer wheel that no theorem depends on). Correspondence between coq/Server.v and the real BaseChannel/Requests/MaxRequests/execute is sampled (every transport call, yield, handler event and both gauges compared inside Coq), not proved. The observer/model simulation (coq/ServerSim*.v) is proved along every run for every transport (ServerSim6.run_top: the unconditional invariant InvU through every polling loop, poll result and application-side op) and two verdict flags are threaded through it (ServerSim7.server_never_early: trace well formed, no early abort); the theorem 'the full monitor accepts every run of the model' needs the hypothesis-dependent half of the invariant and is NOT claimed: its exact statements are pinned as open in coq/ServerSpec.v (sanity-tested by vm_compute on 15 838 scripts, Checks/SrvSpecTest.v) and the monitor is evaluated on the real code's traces on every run. Hypotheses: reuse_only_after_completion (B1), stops_after_error, one op is atomic.",
     assumptions=[SRV_ASSUME_ATOMIC, SRV_ASSUME_B1, SRV_ASSUME_STOP])
 SPECS["C12"] = _server_spec(
     "C12", [C12_PART], level_text="Theorems for EVERY transport, configuration (L = 0 included) and op list (Properties/C12.v): MaxRequests::poll_next hands a request on only if with it at most L are tracked (C12_maxreq_below_limit), and in every run the in-flight gauge right after a yield is at most L (C12_yield_within_limit, by induction over op lists with the invariant 'timer queue and request table hold the same ids'). K1: the clause 'refused only if L really were in flight' is false of the code; the witness theorem C12_freed_in_same_poll_witness shows request 2 throttled with 0 in flight, rejected by the full monitor and accepted by the relaxed one. Clauses (b) exactly one throttle reply per refused request, never yielded, and (c) outside the class FreedInSamePoll are the executable monitors c12_ok / c12_rel_ok (coq/ServerMon.v), evaluated on the real code's traces for every generated script (limits 0..3, cancels adjacent to requests, sink not ready), each also replayed on the model and compared; a rejection is a KNOWN-FINDING only if the relaxed monitor, which exempts exactly the obligations that arise after capacity was freed earlier in the same Requests poll, accepts the shrunk script.",
-    level_note="Trusted: Coq kernel, vm_compute, the Rust harness (scripted transport, virtual clock by clock_gettime interposition, hand polling) and the Python driver. Modelled, not verified: tokio bounded/unbounded mpsc, futures Abortable, Fuse, tokio-util DelayQueue (ms granularity; the order among several due timers is replayed by an executable copy of the timer wheel that no theorem depends on). Correspondence between coq/Server.v and the real BaseChannel/Requests/MaxRequests/execute is sampled (every transport call, yield, handler event and both gauges compared inside Coq), not proved. The observer/model simulation needed for the monitor theorem (coq/ServerSim*.v, ~2500 lines) is proved for the unconditional part of the invariant through every polling loop and the result of a poll (ServerSim6.top_poll); the remaining ops and the verdict flags are not threaded through it yet, so the monitor theorem itself is NOT claimed: the monitor is evaluated on the real code's traces on every run. Known finding K1 (FreedInSamePoll) is reproduced on every run from its committed witness. The expiry variant of K1 (capacity freed by an expiry in the same inner poll) is only visible to the model-level class, not to the observer's count.",
+    level_note="Trusted: Coq kernel, vm_compute, the Rust harness (scripted transport, virtual clock by clock_gettime interposition, hand polling) and the Python driver. Modelled, not verified: tokio bounded/unbounded mpsc, futures Abortable, Fuse, tokio-util DelayQueue (ms granularity; the order among several due timers is replayed by an executable copy of the timer wheel that no theorem depends on). Correspondence between coq/Server.v and the real BaseChannel/Requests/MaxRequests/execute is sampled (every transport call, yield, handler event and both gauges compared inside Coq), not proved. The observer/model simulation (coq/ServerSim*.v) is proved along every run for every transport (ServerSim6.run_top: the unconditional invariant InvU through every polling loop, poll result and application-side op) and two verdict flags are threaded through it (ServerSim7.server_never_early: trace well formed, no early abort); the theorem 'the full monitor accepts every run of the model' needs the hypothesis-dependent half of the invariant and is NOT claimed: its exact statements are pinned as open in coq/ServerSpec.v (sanity-tested by vm_compute on 15 838 scripts, Checks/SrvSpecTest.v) and the monitor is evaluated on the real code's traces on every run. Known finding K1 (FreedInSamePoll) is reproduced on every run from its committed witness. The expiry variant of K1 (capacity freed by an expiry in the same inner poll) is only visible to the model-level class, not to the observer's count.",
     assumptions=[SRV_ASSUME_ATOMIC])
 SPECS["C06"] = _server_spec(
     "C06", [C06_PART], level_text="State-form theorems, for EVERY transport and every state (Properties/C06.v): the timer armed for a request is due at min(deadline, now + 365 days) or later (C06_timer_not_before_deadline; the F5 clamp is part of the statement); expiry only ever takes a due timer, aborts exactly that request and leaves the others (C06_expiry_never_early, C06_expiry_frame); when BaseChannel::poll_next goes idle no timer is due and no server-side cancel is pending (C06_idle_means_enforced); an aborted execute() never polls its handler again (C04_aborted_never_progresses). Trace form, by induction over op lists with the observer/model simulation invariant (coq/ServerSim*.v): C06_never_early_monitor - in EVERY run, for every transport whose fuel measure decreases with each item it hands out, no execute() ends without its handler having completed unless the request's Cancel was read, its deadline timer was due or the channel was dropped, and the trace is well formed. K2: with MaxRequests at its limit and the sink not ready the inner channel is not polled, so enforcement waits for the sink: witness theorem C06_limiter_blocked_on_sink_witness. The trace-level property (no abort before the timer is due; no handler progress and nothing written after the poll that had to process the expiry; other requests unaffected) is the executable monitor c06_ok / c06_rel_ok, evaluated on the real code's traces under a virtual clock stepped to deadline-1 / deadline / deadline+1, with deadlines from already expired to beyond the timer range, with and without limiter, sink ready or not; each script is also replayed on the model and compared.",
-    level_note="Trusted: Coq kernel, vm_compute, the Rust harness (scripted transport, virtual clock by clock_gettime interposition, hand polling) and the Python driver. Modelled, not verified: tokio bounded/unbounded mpsc, futures Abortable, Fuse, tokio-util DelayQueue (ms granularity; the order among several due timers is replayed by an executable copy of the timer wheel that no theorem depends on). Correspondence between coq/Server.v and the real BaseChannel/Requests/MaxRequests/execute is sampled (every transport call, yield, handler event and both gauges compared inside Coq), not proved. The observer/model simulation needed for the monitor theorem (coq/ServerSim*.v, ~2500 lines) is proved for the unconditional part of the invariant through every polling loop and the result of a poll (ServerSim6.top_poll); the remaining ops and the verdict flags are not threaded through it yet, so the monitor theorem itself is NOT claimed: the monitor is evaluated on the real code's traces on every run. Known finding K2 (LimiterBlockedOnSink) is reproduced on every run from its committed witness. Hypotheses: virtual clock below 2^35 ms (the DelayQueue's idle-wheel range is an environment hypothesis of C16); deadlines more than 365 days away are enforced after 365 days (F5 clamp); reuse_only_after_completion and stops_after_error for the clause 'no progress after expiry'.",
+    level_note="Trusted: Coq kernel, vm_compute, the Rust harness (scripted transport, virtual clock by clock_gettime interposition, hand polling) and the Python driver. Modelled, not verified: tokio bounded/unbounded mpsc, futures Abortable, Fuse, tokio-util DelayQueue (ms granularity; the order among several due timers is replayed by an executable copy of the timer wheel that no theorem depends on). Correspondence between coq/Server.v and the real BaseChannel/Requests/MaxRequests/execute is sampled (every transport call, yield, handler event and both gauges compared inside Coq), not proved. The observer/model simulation (coq/ServerSim*.v) is proved along every run for every transport (ServerSim6.run_top: the unconditional invariant InvU through every polling loop, poll result and application-side op) and two verdict flags are threaded through it (ServerSim7.server_never_early: trace well formed, no early abort); the theorem 'the full monitor accepts every run of the model' needs the hypothesis-dependent half of the invariant and is NOT claimed: its exact statements are pinned as open in coq/ServerSpec.v (sanity-tested by vm_compute on 15 838 scripts, Checks/SrvSpecTest.v) and the monitor is evaluated on the real code's traces on every run. Known finding K2 (LimiterBlockedOnSink) is reproduced on every run from its committed witness. Hypotheses: virtual clock below 2^35 ms (the DelayQueue's idle-wheel range is an environment hypothesis of C16); deadlines more than 365 days away are enforced after 365 days (F5 clamp); reuse_only_after_completion and stops_after_error for the clause 'no progress after expiry'.",
     assumptions=[SRV_ASSUME_ATOMIC, SRV_ASSUME_B1, SRV_ASSUME_STOP, SRV_ASSUME_CLOCK])
 SPECS["C04"] = _server_spec(
     "C04", [C04_PART, C04_CHAIN_PART], level_text="State-form theorems, for EVERY transport and every state (Properties/C04.v): a Cancel for a tracked id sets the abort flag of that request's handle, forgets the request (in-flight count drops) and removes its timer (C04_cancel_stops_tracked); an execute() whose handle is aborted never polls its handler again and buffers no response (C04_aborted_never_progresses); a Cancel for an untracked id leaves the state unchanged (C04_cancel_unknown_frame); cascade: over the abstract composition of an n-node chain, abandoning the head call leaves no unfinished handler, by induction on the depth (C04_cascade_partial: the two client-side facts - handler drop abandons its call; an abandoned transmitted call is cancelled on the wire - and the server-side fact are hypotheses of the statement, to be discharged from the client lemmas and from (a) + the abort waker contract). The hypothesis reuse_only_after_completion is necessary (_refuted witness). Trace level: the monitor c04_ok on the real server's traces with a Cancel at every position relative to handler start, completion, response buffering and response write, 1..4 concurrent requests, with/without limiter, sink-not-ready periods; and REAL chains of depth 1..3 (client::new + BaseChannel::requests per node, nested calls with the handler's context, wake-driven, virtual time) checked by c04_chain_ok: after abandonment (or the deadline) and quiescence every started handler has ended and every server has 0 in flight.",
-    level_note="Trusted: Coq kernel, vm_compute, the Rust harness (scripted transport, virtual clock by clock_gettime interposition, hand polling) and the Python driver. Modelled, not verified: tokio bounded/unbounded mpsc, futures Abortable, Fuse, tokio-util DelayQueue (ms granularity; the order among several due timers is replayed by an executable copy of the timer wheel that no theorem depends on). Correspondence between coq/Server.v and the real BaseChannel/Requests/MaxRequests/execute is sampled (every transport call, yield, handler event and both gauges compared inside Coq), not proved. The observer/model simulation needed for the monitor theorem (coq/ServerSim*.v, ~2500 lines) is proved for the unconditional part of the invariant through every polling loop and the result of a poll (ServerSim6.top_poll); the remaining ops and the verdict flags are not threaded through it yet, so the monitor theorem itself is NOT claimed: the monitor is evaluated on the real code's traces on every run. The cascade theorem is partial: it is stated over an abstract composition whose three per-node facts are hypotheses; the chain part has no model (the monitor alone decides). Waker behaviour (abort wakes the execute() task) is assumed, not modelled.",
+    level_note="Trusted: Coq kernel, vm_compute, the Rust harness (scripted transport, virtual clock by clock_gettime interposition, hand polling) and the Python driver. Modelled, not verified: tokio bounded/unbounded mpsc, futures Abortable, Fuse, tokio-util DelayQueue (ms granularity; the order among several due timers is replayed by an executable copy of the timer wheel that no theorem depends on). Correspondence between coq/Server.v and the real BaseChannel/Requests/MaxRequests/execute is sampled (every transport call, yield, handler event and both gauges compared inside Coq), not proved. The observer/model simulation (coq/ServerSim*.v) is proved along every run for every transport (ServerSim6.run_top: the unconditional invariant InvU through every polling loop, poll result and application-side op) and two verdict flags are threaded through it (ServerSim7.server_never_early: trace well formed, no early abort); the theorem 'the full monitor accepts every run of the model' needs the hypothesis-dependent half of the invariant and is NOT claimed: its exact statements are pinned as open in coq/ServerSpec.v (sanity-tested by vm_compute on 15 838 scripts, Checks/SrvSpecTest.v) and the monitor is evaluated on the real code's traces on every run. The cascade theorem is partial: it is stated over an abstract composition whose three per-node facts are hypotheses; the chain part has no model (the monitor alone decides). Waker behaviour (abort wakes the execute() task) is assumed, not modelled.",
     assumptions=[SRV_ASSUME_ATOMIC, SRV_ASSUME_B1, SRV_ASSUME_STOP])
 
 # ---------------------------------------------------------------------------------------------
